@@ -30,10 +30,10 @@ type fixedCred struct{}
 
 func (fixedCred) Get() syscall.Credential { return syscall.Credential{Uid: 10001, Gid: 10001} }
 
-var c13tmpfs = []string{"w", "tmp", "w/inner", "big", "wide", "tmp2"}
+var c13tmpfs = []string{"w", "tmp", "w/inner", "big", "wide", "tmp2", "gl[0]b", "st*r?", "sp ace"} // the last three: names that are not plain words (pattern characters, a blank)
 
 func c13mounts() []mount.Mount {
-	return mount.NewBuilder().WithBind(binDir(), "probe", true).WithTmpfs("w", "").WithTmpfs("tmp", "").WithTmpfs("w/inner", "").WithTmpfs("big", "size=16m,nr_inodes=8k").WithTmpfs("wide", "").WithTmpfs("tmp2", "").WithProc().Mounts
+	return mount.NewBuilder().WithBind(binDir(), "probe", true).WithTmpfs("w", "").WithTmpfs("tmp", "").WithTmpfs("w/inner", "").WithTmpfs("big", "size=16m,nr_inodes=8k").WithTmpfs("wide", "").WithTmpfs("tmp2", "").WithTmpfs("gl[0]b", "").WithTmpfs("st*r?", "").WithTmpfs("sp ace", "").WithProc().Mounts
 }
 
 func listDir(p string) []string {
@@ -56,7 +56,7 @@ func init() {
 		}
 		spec := &mc.Spec{
 			Level: "exploration",
-			Rule: "Reset: a real program (fsgen) creates every subset of ≤ maxKinds residue kinds out of 12 (deep path, path longer than PATH_MAX, mode-000 directory with content, hidden names, dangling / host / self symlinks, FIFO, socket, hard links, 2000 entries, file held open by a surviving process, read-only directory, weird names) in every tmpfs mount of the container (work dir, /tmp, a tmpfs nested in the work dir, a tmpfs with size options, two tmpfs whose names extend the names of earlier ones), with and without credential switching, in the histories run→Reset and run→run→Reset, the last run ending by itself or refused by the caller's sync callback after the program already ran (sync after exec); " +
+			Rule: "Reset: a real program (fsgen) creates every subset of ≤ maxKinds residue kinds out of 12 (deep path, path longer than PATH_MAX, mode-000 directory with content, hidden names, dangling / host / self symlinks, FIFO, socket, hard links, 2000 entries, file held open by a surviving process, read-only directory, weird names) in every tmpfs mount of the container (work dir, /tmp, a tmpfs nested in the work dir, a tmpfs with size options, two tmpfs whose names extend the names of earlier ones, three whose names contain pattern characters or a blank), with and without credential switching, in the histories run→Reset and run→run→Reset, the last run ending by itself or refused by the caller's sync callback after the program already ran (sync after exec); " +
 				"afterwards every tmpfs mount must be empty as seen from the host through /proc/<init>/root. memfd: sizes {0,1,4095,4096,4097,65536,1 MiB+1} × byte patterns × reader behaviours (whole, one byte at a time, 7 at a time, failing midway, and readers with a size or position of their own: advanced bytes.Reader, partly consumed SectionReader window, file at an offset, bytes.Buffer, LimitedReader); content, offset and seals checked; every modification attempt by the holder of the descriptor and by a program exec'ed from the sealed file (on its own image and on a second sealed descriptor) must leave the bytes unchanged. " +
 				"non-trivial: at least one residue kind / size > 0; distinct = (kinds, credential mode, history, listing) or (size, pattern, reader, attack results)",
 			Bound:       map[string]any{"max_kinds": maxKinds, "tmpfs_mounts": c13tmpfs},
@@ -154,7 +154,7 @@ func c13reset(x *mc.X, kinds string, cred, twoRuns, refused bool) {
 		return
 	}
 	root := fmt.Sprintf("/proc/%d/root", e.initPid)
-	dirs := []string{"/w", "/tmp", "/w/inner", "/big", "/wide", "/tmp2"}
+	dirs := []string{"/w", "/tmp", "/w/inner", "/big", "/wide", "/tmp2", "/gl[0]b", "/st*r?", "/sp ace"}
 	if cred {
 		// the program runs under the container uid: make the mount roots writable for it (the caller's job)
 		for _, d := range dirs {
